@@ -93,6 +93,11 @@ func nidCl(nid string) bool {
 	}
 	nid = strings.ToLower(nid)
 	nid = nonDigitOrK.ReplaceAllString(nid, "")
+	if len(nid) < 2 {
+		// nothing is left of a candidate without digits: a RUT needs at least
+		// one digit and the verification digit
+		return false
+	}
 	rut, _ := strconv.Atoi(nid[:len(nid)-1])
 	dv := nid[len(nid)-1:]
 
